@@ -167,7 +167,7 @@ def feed_symm_kernel(report, tier):
 
 
 KERNELS = ('scale', 'scale2', 'pack', 'pack2', 'unpack', 'sprod', 'sinv',
-           'trisc', 'triusc', 'sdot')
+           'trisc', 'triusc', 'sdot', 'max_step')
 
 
 def feed_kernel_frames(report, tier):
@@ -187,8 +187,8 @@ def feed_kernel_frames(report, tier):
         'misc.* kernels: frame proved on misc_solvers.c by region identity '
         '(which buffer a BLAS/LAPACK call writes); the extent of the writes '
         'inside that buffer and the kernels\' missing argument validation '
-        'are not part of this property (C08/C19 class); misc.max_step and '
-        'the Python fall-backs (use_C = False) are not covered')
+        'are not part of this property (C08/C19 class); the Python '
+        'fall-backs (use_C = False) are not covered')
 
 
 
